@@ -537,10 +537,10 @@ Proof.
   revert j; induction ps as [|p t IH]; intros j Hj; cbn [flat_map] in Hj; [cbn in Hj; lia|].
   rewrite app_length in Hj. cbn [top_rets].
   destruct (Nat.ltb_spec j (length (trace w p))) as [Hlt|Hge].
-  - exists [], p, t, j. repeat split; [exact Hlt|]. reflexivity.
+  - exists [], p, t, j. split; [reflexivity|]. split; [exact Hlt|]. reflexivity.
   - destruct (IH (j - length (trace w p)) ltac:(lia)) as (pre & q & post & jp & -> & Hjp & ->).
-    exists (p :: pre), q, post, jp. repeat split; [exact Hjp|].
-    cbn [flat_map]. rewrite exits_app. now rewrite <- app_assoc.
+    exists (p :: pre), q, post, jp. split; [reflexivity|]. split; [exact Hjp|].
+    cbn [flat_map]. unfold exits. rewrite map_app. now rewrite <- app_assoc.
 Qed.
 
 (* ---------------------------------------------------------------------------------------------
@@ -554,6 +554,26 @@ Theorem recipients_order w lvl :
   recipients w lvl = concat (rev (firstn (S lvl) (plans w))) ++ obsv w.
 Proof. unfold recipients, path_of. apply recipients_up_concat. Qed.
 
+Lemma nodup_app_l {A} (a b : list A) : NoDup (a ++ b) -> NoDup a.
+Proof.
+  induction a as [|x a IH]; intros H; [constructor|]. cbn in H. inversion H as [|? ? Hx Hr]; subst.
+  constructor; [intros Hc; apply Hx; apply in_or_app; now left | now apply IH].
+Qed.
+Lemma nodup_app_r {A} (a b : list A) : NoDup (a ++ b) -> NoDup b.
+Proof. induction a as [|x a IH]; intros H; [exact H|]. cbn in H. inversion H; subst. now apply IH. Qed.
+Lemma nodup_app_disj {A} (a b : list A) x : NoDup (a ++ b) -> In x a -> ~ In x b.
+Proof.
+  induction a as [|y a IH]; intros H Ha Hb; [destruct Ha|]. cbn in H. inversion H as [|? ? Hy Hr]; subst.
+  destruct Ha as [->|Ha]; [apply Hy; apply in_or_app; now right | exact (IH Hr Ha Hb)].
+Qed.
+Lemma nodup_app_intro {A} (a b : list A) :
+  NoDup a -> NoDup b -> (forall x, In x a -> ~ In x b) -> NoDup (a ++ b).
+Proof.
+  induction a as [|x a IH]; intros Ha Hb Hd; [exact Hb|]. cbn. inversion Ha as [|? ? Hx Hr]; subst. constructor.
+  - intros Hc. apply in_app_or in Hc as [Hc|Hc]; [contradiction | apply (Hd x); [now left | exact Hc]].
+  - apply IH; auto. intros y Hy. apply Hd. now right.
+Qed.
+
 Lemma concat_rev_incl {A} (l : list (list A)) x : In x (concat (rev l)) <-> In x (concat l).
 Proof.
   rewrite !in_concat. split; intros (h & Hh & Hx); exists h; split; auto; [now apply in_rev | now apply in_rev in Hh].
@@ -563,53 +583,41 @@ Lemma NoDup_concat_rev {A} (l : list (list A)) : NoDup (concat l) -> NoDup (conc
 Proof.
   induction l as [|h t IH]; [trivial|]. cbn. intros H.
   rewrite concat_app. cbn. rewrite app_nil_r.
-  apply NoDup_app_remove_l in H as Ht. specialize (IH Ht).
-  assert (Hh : NoDup h) by (eapply NoDup_app_remove_r; exact H).
-  clear Ht. revert IH. generalize (concat_rev_incl t). generalize (concat (rev t)) as a. intros a Hin Ha.
-  induction a as [|x a IHa]; [exact Hh|]. cbn. inversion Ha as [|? ? Hx Ha']; subst. constructor.
-  - intros Hc. apply in_app_or in Hc as [Hc|Hc]; [contradiction|].
-    assert (Hxt : In x (concat t)) by (apply Hin; now left).
-    clear - H Hc Hxt. induction h as [|y h IHh]; [destruct Hc|]. cbn in H. inversion H as [|? ? Hy Hr]; subst.
-    destruct Hc as [->|Hc]; [apply Hy; apply in_or_app; now right | now apply IHh].
-  - apply IHa; [|exact Ha']. intros y. specialize (Hin y). cbn in Hin. tauto.
+  apply nodup_app_intro; [apply IH; exact (nodup_app_r _ _ H) | exact (nodup_app_l _ _ H) |].
+  intros x Hx Hh. apply concat_rev_incl in Hx. exact (nodup_app_disj _ _ x H Hh Hx).
 Qed.
 
-Lemma firstn_concat_NoDup {A} n (l : list (list A)) : NoDup (concat l) -> NoDup (concat (firstn n l)).
+Lemma in_concat_firstn {A} n : forall (l : list (list A)) x, In x (concat (firstn n l)) -> In x (concat l).
 Proof.
-  revert l; induction n as [|n IH]; intros l H; [rewrite firstn_O; constructor|].
+  induction n as [|n IH]; intros l x H; [rewrite firstn_O in H; destruct H|].
+  destruct l as [|h t]; [rewrite firstn_nil in H; destruct H|]. rewrite firstn_S_cons in H. cbn in *.
+  apply in_app_or in H as [H|H]; apply in_or_app; [now left | right; now apply IH].
+Qed.
+
+Lemma firstn_concat_NoDup {A} n : forall (l : list (list A)), NoDup (concat l) -> NoDup (concat (firstn n l)).
+Proof.
+  induction n as [|n IH]; intros l H; [rewrite firstn_O; constructor|].
   destruct l as [|h t]; [rewrite firstn_nil; constructor|]. rewrite firstn_S_cons. cbn in *.
-  assert (Ht : NoDup (concat (firstn n t))) by (apply IH; eapply NoDup_app_remove_l; exact H).
-  assert (Hh : NoDup h) by (eapply NoDup_app_remove_r; exact H).
-  clear IH. induction h as [|y h IHh]; [exact Ht|]. cbn in *. inversion H as [|? ? Hy Hr]; subst.
-  constructor; [|apply IHh; [exact Hr | now inversion Hh]].
-  intros Hc. apply Hy. apply in_app_or in Hc as [Hc|Hc]; apply in_or_app; [now left | right].
-  rewrite in_concat in *. destruct Hc as (x & Hx & Hyx). exists x. split; [|exact Hyx].
-  clear - Hx. revert t Hx; induction n as [|n IHn]; intros t Hx; [rewrite firstn_O in Hx; destruct Hx|].
-  destruct t as [|a t]; [rewrite firstn_nil in Hx; destruct Hx|]. rewrite firstn_S_cons in Hx.
-  destruct Hx as [->|Hx]; [now left | right; now apply IHn].
+  apply nodup_app_intro; [exact (nodup_app_l _ _ H) | apply IH; exact (nodup_app_r _ _ H) |].
+  intros x Hx Hc. apply in_concat_firstn in Hc. exact (nodup_app_disj _ _ x H Hx Hc).
 Qed.
 
 (* exactly once: distinct handlers and observers give a duplicate-free recipient list *)
 Theorem recipients_nodup w lvl : NoDup (concat (plans w) ++ obsv w) -> NoDup (recipients w lvl).
 Proof.
   intros H. rewrite recipients_order.
-  assert (Hp : NoDup (concat (plans w))) by (eapply NoDup_app_remove_r; exact H).
-  assert (Ho : NoDup (obsv w)) by (eapply NoDup_app_remove_l; exact H).
-  pose proof (NoDup_concat_rev _ (firstn_concat_NoDup (S lvl) _ Hp)) as Hr.
-  revert Hr. generalize (concat_rev_incl (firstn (S lvl) (plans w))).
-  generalize (concat (rev (firstn (S lvl) (plans w)))) as a. intros a Hin Ha.
-  induction a as [|x a IHa]; [exact Ho|]. cbn. inversion Ha as [|? ? Hx Ha']; subst. constructor.
-  - intros Hc. apply in_app_or in Hc as [Hc|Hc]; [contradiction|].
-    assert (Hxp : In x (concat (plans w))).
-    { assert (Hx1 : In x (concat (firstn (S lvl) (plans w)))) by (apply Hin; now left).
-      rewrite in_concat in *. destruct Hx1 as (h & Hh & Hxh). exists h. split; [|exact Hxh].
-      clear - Hh. revert Hh. generalize (S lvl) as n. generalize (plans w) as l.
-      induction l as [|b l IHl]; intros n Hh; [rewrite firstn_nil in Hh; destruct Hh|].
-      destruct n; [rewrite firstn_O in Hh; destruct Hh|]. rewrite firstn_S_cons in Hh.
-      destruct Hh as [->|Hh]; [now left | right; eapply IHl; exact Hh]. }
-    clear - H Hc Hxp. induction (concat (plans w)) as [|y l IHl]; [destruct Hxp|]. cbn in H.
-    inversion H as [|? ? Hy Hr]; subst. destruct Hxp as [->|Hxp]; [apply Hy; apply in_or_app; now right | now apply IHl].
-  - apply IHa; [|exact Ha']. intros y. specialize (Hin y). cbn in Hin. tauto.
+  apply nodup_app_intro.
+  - apply NoDup_concat_rev. apply firstn_concat_NoDup. exact (nodup_app_l _ _ H).
+  - exact (nodup_app_r _ _ H).
+  - intros x Hx Ho. apply concat_rev_incl in Hx. apply in_concat_firstn in Hx.
+    exact (nodup_app_disj _ _ x H Hx Ho).
+Qed.
+
+(* membership: the handlers of the emitting plan and of its ancestors, and the observers *)
+Theorem recipients_members w lvl r :
+  In r (recipients w lvl) <-> In r (concat (firstn (S lvl) (plans w))) \/ In r (obsv w).
+Proof.
+  rewrite recipients_order, in_app_iff. now rewrite concat_rev_incl.
 Qed.
 
 (* an event that nobody aborts is delivered as one contiguous block, once to every recipient *)
